@@ -178,6 +178,31 @@ def check_invert(mo, A, P, sizes, s_arg, fmt, reverse, method):
     return bad, Rd
 
 
+def _check_block_scales(mo, A, P, s, rp0, cp0, fmt):
+    """B = (diag(s) A)[rp0][:, cp0] with s constant on each diagonal block of A: the returned R must satisfy R diag(s[rp0]) = B0^-1 with
+    B0 = A[rp0][:, cp0].  Returns a description of what fails, or None."""
+    n = A.shape[0]
+    B0 = A[rp0][:, cp0]
+    sp_ = s[rp0]
+    B = sp_[:, None] * B0
+    M = _store(B, P[rp0][:, cp0], fmt, False)
+    try:
+        with warnings.catch_warnings():
+            warnings.simplefilter("ignore")
+            rp, cp, bs = mo.generate_permutation_to_block_diag_matrix(M)
+            R = mo.invert_permuted_block_diag_matrix(M, rp, cp, bs)
+    except Exception as e:  # noqa
+        return f"raises {type(e).__name__}: {str(e)[:300]}"
+    if not sps.issparse(R) or R.shape != (n, n):
+        return f"got {type(R).__name__} {getattr(R, 'shape', None)}"
+    R0 = R.toarray() * sp_[None, :]
+    cond = np.linalg.cond(B0)
+    e1 = np.abs(R0 @ B0 - np.eye(n)).max()
+    if not (e1 <= TOL * cond):
+        return f"max|(R diag(s)) B0 - I| = {e1:.3e}, cond(B0) = {cond:.3e}, row scales {sorted(set(s.tolist()))}"
+    return None
+
+
 def check_permuted(mo, A, P, rp0, cp0, fmt, reverse):
     """B = A[rp0][:, cp0]; contracts of generate_permutation_to_block_diag_matrix and invert_permuted_block_diag_matrix"""
     n = A.shape[0]
@@ -354,6 +379,19 @@ def run(rep):
                                 sw.case((sizes, variant, tuple(rp0), tuple(cp0), seed, fmt, vname), nontrivial=True)
                                 for ob, detail in bad:
                                     rep.violation(ob, _sig(sizes, fmt, variant, f" {pname} permutation, {vname}"), inputs=inp2, detail=detail, confirmed=True)
+                            # (c) blocks in different units: the rows of block k scaled by 2**(+-30) (exact in binary floating point), so that the
+                            # entries of the inverse differ by 18 orders of magnitude between blocks; judged after undoing the scaling
+                            off = np.cumsum([0] + list(sizes))
+                            s = np.ones(n)
+                            for q in range(len(sizes)):
+                                s[off[q]:off[q + 1]] = (2.0 ** 30, 2.0 ** -30, 1.0)[q % 3]
+                            detail = _check_block_scales(mo, A, P, s, np.array(rp0), np.array(cp0), fmt)
+                            sw.case((sizes, variant, tuple(rp0), tuple(cp0), seed, fmt, "block scales"), nontrivial=True)
+                            if detail:
+                                rep.violation("invert_permuted_block_diag_matrix: R B = I for blocks of different magnitude (judged after undoing the row scaling)",
+                                              _sig(sizes, fmt, variant, f" {pname} permutation, block scales 2^30 / 2^-30"),
+                                              inputs={"A": A.tolist(), "stored": P.astype(int).tolist(), "sizes": list(sizes), "row_perm": rp0, "col_perm": cp0,
+                                                      "format": fmt, "row_scales": s.tolist()}, detail=detail, confirmed=True)
 
 
 def replay(data):
@@ -365,7 +403,9 @@ def replay(data):
         return False
     A = np.array(inp["A"], dtype=float)
     P = np.array(inp["stored"], dtype=bool)
-    if "row_perm" in inp:
+    if "row_scales" in inp:
+        bad = _check_block_scales(mo, A, P, np.array(inp["row_scales"], dtype=float), np.array(inp["row_perm"]), np.array(inp["col_perm"]), inp["format"])
+    elif "row_perm" in inp:
         bad = check_permuted(mo, A, P, np.array(inp["row_perm"]), np.array(inp["col_perm"]), inp["format"], False)
     else:
         sizes = inp.get("true_sizes", inp["sizes"])
